@@ -62,3 +62,8 @@ package base
 //@   props C12 C14
 //@   safety
 //@   ensures len(out) == 8 && le64(out) == n
+
+// Storage sizes of the fixed-width binary types are between 0 and 8 bytes (established by the package initialiser).
+//@ func init()
+//@   props C12 C14
+//@   ensures storage-sizes-sane: forall(k, 0, 256, haskey(NumericTypesStorageBytes, Type(k)) ==> 0 <= NumericTypesStorageBytes[Type(k)] && NumericTypesStorageBytes[Type(k)] <= 8)
